@@ -406,6 +406,11 @@ class World(WorldBase):
         name = rng.choice(ok)
         op = {"op": "reread", "reader": name}
         rd, path, kind, opts = self.readers[name]
+        lk = [k for k in self.swarm["faults"] if k in LINE_FAULTS]
+        if lk and not path.endswith(".gsd") and rng.random() < 0.5:
+            # crash-point sweep of a long-lived reader: its read is cancelled (or runs out of
+            # memory) at instants spread over the whole execution; the read after them is judged
+            op["sweep"] = {"exc": rng.choice(lk), "m": rng.choice([8, 16, 32]), "seed": rng.randrange(1 << 30)}
         if kind in ("center", "vector") and rng.random() < 0.6:
             # between two reads the client changes the options of its long-lived reader: the
             # object it passed (held by the reader by reference) edited in place, or a new one assigned
@@ -770,6 +775,32 @@ class World(WorldBase):
             self.ctx.probe(f"reader_options_edited_{ed['how']}")
         if kind == "vector" and max(opts) > 2 + d["ndim"] + len(d["names"]):
             raise Refuse("column out of range for the file as it is now")
+        sw = op.get("sweep")
+        if sw and len(d["frames"]) * max(w["n"] for w in d["frames"]) <= 400:
+            import random
+            import sys
+            from simkit.worldbase import line_tracer
+            tr, st = line_tracer(0)
+            sys.settrace(tr)
+            try:
+                rd.read_onefile()
+            except BaseException as e:  # noqa: BLE001
+                raise Violation("C19/reader-raised:reread", f"{type(e).__name__}: {e} for {self._brief(op)}")
+            finally:
+                sys.settrace(None)
+            nln = st["n"]
+            r2 = random.Random(sw["seed"])
+            every = os.environ.get("VERIF_TIER", "quick") != "quick" and nln <= 600
+            m = nln if every else min(nln, sw["m"])
+            ats = sorted({min(nln, 1 + (k * nln) // m + r2.randrange(max(1, nln // m))) for k in range(m)}) if m else []
+            n_f = 0
+            for at in ats:
+                _r, exc, (_nev, _dig, fired) = self.call(rd.read_onefile, {"kind": sw["exc"], "at": at})
+                self.drop_last()
+                if exc is not None and not (fired and fired[0] in LINE_FAULTS):
+                    raise Violation("C19/reader-raised:reread", f"{exc[0]}: {exc[1]} for {self._brief(op)}")
+                n_f += 1 if fired else 0
+            self.ctx.probe("reader_sweep_points", n_f)
         _, failed = self._read(op, rd.read_onefile, "reread")
         if failed:
             return "failed by fault"
